@@ -545,3 +545,37 @@ for _p in ('C01', 'C02', 'C06', 'C10', 'C11'):
     for _t in ('quick', 'thorough'):
         PLAN[_p]['bounds'][_t] += ('; driver: 10 histories of 18 blocks up to 32 leaves' if _t == 'quick'
                                    else '; driver: 60 histories of 40 blocks up to 64 leaves')
+
+
+def verifier(name, maxn, claims, proofs, variant='fixed', invs=('SoundOK', 'CompleteOK', 'MinimalOK', 'DelOK'), **kw):
+    st = {'kind': 'spec_check', 'name': name, 'module': 'VerifierFun', 'spec': 'Spec',
+          'constants': {'MaxN': maxn, 'MaxClaim': claims, 'MaxProof': proofs, 'NJunk': 1, 'Variant': '"%s"' % variant},
+          'invariants': list(invs)}
+    if variant != 'fixed':
+        st['expect_violation'] = True
+    st.update(kw)
+    return st
+
+
+_c03 = PLAN['C03']['stages']
+PLAN['C03']['stages'] = lambda tier, seed: (
+    ([verifier('verifier_model', 4, 2, 2)] if tier == 'quick' else [verifier('verifier_model', 5, 2, 2, timeout=10000),
+                                                                    verifier('verifier_model3', 3, 3, 3, timeout=10000)]) +
+    [verifier('verifier_neg_' + v, 3, 2, 2, variant=v, invs=('SoundOK',)) for v in ('zero', 'dup', 'nested', 'anyroot')] +
+    _c03(tier, seed))
+PLAN['C03']['rule'] = ('spec/VerifierFun.tla models the verification algorithm as a function over the free term algebra; TLC checks for '
+                       'every state and every input over the adversary\'s alphabet (claims x positions x proofs incl. the zero hash) '
+                       'that acceptance implies ClaimsTrue, and finds the violation for each of the four acceptance defects that '
+                       'were repaired in the code when it is re-introduced into the model (zero proof hash, duplicated target, '
+                       'nested targets, root matched by hash only). Binding to the code: ' + PLAN['C03']['rule'])
+_c02 = PLAN['C02']['stages']
+PLAN['C02']['stages'] = lambda tier, seed: (
+    [verifier('verifier_complete', 7 if tier == 'quick' else 8, 1, 0, invs=('CompleteOK', 'MinimalOK'))] + _c02(tier, seed))
+PLAN['C02']['rule'] += (' Spec level: on spec/VerifierFun.tla TLC checks that the canonical proof of every set of live leaves is '
+                        'accepted in every request order with all proof hashes used, also with a trailing unused hash, and that '
+                        'dropping any one proof hash makes it rejected (minimality).')
+_c05 = PLAN['C05']['stages']
+PLAN['C05']['stages'] = lambda tier, seed: (
+    [verifier('verifier_del', 7 if tier == 'quick' else 8, 1, 0, invs=('DelOK',))] + _c05(tier, seed))
+PLAN['C05']['rule'] += (' Spec level: on spec/VerifierFun.tla the roots computed by the deletion walk for an accepted proof of live '
+                        'leaves equal Roots(n, live \\ D) in every request order.')
